@@ -15,11 +15,12 @@ s = put(s, "THEOREM-TABLE", gen("theorem_table.py"))
 metas = [json.load(open(m)) for m in sorted(glob.glob(os.path.join(root, "seeded/C*/meta.json")))]
 n = len(metas); conf = sum(1 for m in metas if m.get("confirmed"))
 caught = sum(1 for m in metas if any(c.endswith("VIOLATION") for c in m.get("checks_run", [])))
+noinput = sum(1 for m in metas if any(c.endswith("NOINPUT") for c in m.get("checks_run", [])) and not any(c.endswith("VIOLATION") for c in m.get("checks_run", [])))
 missed_first = sum(1 for m in metas if m.get("history"))
 rej = len(glob.glob(os.path.join(root, "seeded/_rejected/*/meta.json")))
 summary = (f"{n} seeded changes kept ({conf} confirmed by `bin/seedtest`: patch applies, pinned tests pass, demo fails with / passes "
            f"without), {rej} rejected as not breaking the property as stated (`seeded/_rejected/`).  {caught} are reported as "
-           f"`VIOLATION` by a quick check now; {missed_first} of them were missed (or missed by the property's own check) on their "
+           f"`VIOLATION` with a failing input by a quick check now ({noinput} more only as `no-failing-input-found`); {missed_first} of them were missed (or missed by the property's own check) on their "
            f"first run and led to a strengthened generator, oracle or model (column *strengthened*).")
 s = put(s, "SEEDED-TABLE", summary + "\n\n" + gen("seeded_table.py"))
 open(p, "w").write(s)
